@@ -107,11 +107,74 @@ def parse_dispatch(path, words):
     return cases, default_throws
 
 
+
+# ---------------------------------------------------------------- cache wiring (memo tables keyed by macro-state addresses)
+def _split_targs(t):
+    """top-level template arguments of `A, B<C, D>, E`"""
+    out, depth, cur = [], 0, ""
+    for ch in t:
+        if ch in "<(":
+            depth += 1
+        elif ch in ">)":
+            depth -= 1
+        if ch == "," and depth == 0:
+            out.append(cur.strip()); cur = ""
+        else:
+            cur += ch
+    if cur.strip():
+        out.append(cur.strip())
+    return out
+
+
+def parse_cache_wiring(repo):
+    """For every site that interns macro-states in a `BiggerTypeCache` (Util::Cache) whose deleter must purge the memo
+    tables keyed by the ADDRESS of a macro-state: the memo tables in scope (name, which key positions hold `const StateSet*`)
+    and the `invalidateFirst/Second` calls of the deleter lambda.  A memo entry that outlives the set it mentions is answered
+    for whatever set is allocated at that address next (stale answer)."""
+    typedefs = {}
+    for rel in ["src/down_tree_incl_fctor.hh", "src/down_tree_opt_incl_fctor.hh"]:
+        txt = strip_comments(open(os.path.join(repo, rel)).read())
+        m = re.search(r"typedef\s+(?:VATA::)?Util::CachedBinaryOp\s*<(.*?)>\s*LteCache\s*;", txt, flags=re.S)
+        if not m:
+            raise ValueError("no LteCache typedef in " + rel)
+        typedefs[rel] = _split_targs(" ".join(m.group(1).split()))
+    if typedefs["src/down_tree_incl_fctor.hh"] != typedefs["src/down_tree_opt_incl_fctor.hh"]:
+        raise ValueError("the two downward functors declare different LteCache types")
+    lte_t = typedefs["src/down_tree_incl_fctor.hh"]
+    sites = []
+    for rel in ["src/tree_incl_down.hh", "src/explicit_tree_incl_down.cc", "src/explicit_tree_incl_up.cc"]:
+        txt = strip_comments(open(os.path.join(repo, rel)).read())
+        m = re.search(r"BiggerTypeCache\s+biggerTypeCache\s*\(\s*\[([^\]]*)\]\s*\(\s*const\s+StateSet\s*\*\s*(\w+)\s*\)\s*\{(.*?)\}\s*\)\s*;", txt, flags=re.S)
+        if not m:
+            raise ValueError("no biggerTypeCache deleter in " + rel)
+        captured = [c.strip().lstrip("&") for c in m.group(1).split(",") if c.strip()]
+        var, body = m.group(2), m.group(3)
+        calls = re.findall(r"(\w+)\s*\.\s*(invalidateFirst|invalidateSecond)\s*\(\s*" + var + r"\s*\)", body)
+        other = [x for x in re.split(r";", re.sub(r"(\w+)\s*\.\s*(invalidateFirst|invalidateSecond)\s*\(\s*" + var + r"\s*\)", "", body)) if x.strip()]
+        # memo tables in scope before the cache: explicit declarations, or the functor's LteCache typedef
+        before = txt[:m.start()]
+        tables = []
+        for dm in re.finditer(r"(?:VATA::)?Util::CachedBinaryOp\s*<(.*?)>\s*(\w+)\s*;", before, flags=re.S):
+            tables.append((dm.group(2), _split_targs(" ".join(dm.group(1).split()))))
+        for dm in re.finditer(r"typename\s+InclFctor::LteCache\s+(\w+)\s*;", before):
+            tables.append((dm.group(1), lte_t))
+        tabs = []
+        for name, targs in tables:
+            if name not in captured:
+                continue
+            keypos = [i for i in (0, 1) if i < len(targs) and re.fullmatch(r"const\s+StateSet\s*\*", targs[i])]
+            tabs.append((name, keypos))
+        # declared before the antichains / work-sets that hold handles (destruction order: the cache must die last)
+        after = txt[m.end():m.end() + 1500]
+        sites.append(dict(file=rel, tables=tabs, calls=calls, other=len(other), captured=captured))
+    return sites
+
+
 def lean_str(s):
     return '"' + s.replace("\\", "\\\\").replace('"', '\\"') + '"'
 
 
-def render(flags, words, tables, errors):
+def render(flags, words, tables, errors, wiring=()):
     out = []
     out.append("/-! GENERATED by tools/extract_tables.py from /repo's sources on every run – do not edit. -/")
     out.append("namespace Vata.Gen\n")
@@ -128,6 +191,15 @@ def render(flags, words, tables, errors):
             f"{lean_str(c['sanitized'])}, {lean_str(c['rel'])}⟩" for c in cases))
         out.append("]\n")
         out.append(f"def {tname}DefaultThrows : Bool := {'true' if dthrows else 'false'}\n")
+    out.append("/-- cache wiring: (file, memo tables captured by the macro-state cache's deleter with the key positions that hold a")
+    out.append("    macro-state address (0 = first, 1 = second), the (table, position) pairs the deleter invalidates, number of other")
+    out.append("    statements in the deleter) -/")
+    out.append("def cacheWiring : List (String × List (String × List Nat) × List (String × Nat) × Nat) := [")
+    out.append(",\n".join(
+        "  (" + lean_str(w["file"]) + ", [" + ", ".join("(" + lean_str(n) + ", [" + ", ".join(map(str, kp)) + "])" for n, kp in w["tables"]) + "], ["
+        + ", ".join("(" + lean_str(n) + ", " + ("0" if meth == "invalidateFirst" else "1") + ")" for n, meth in w["calls"]) + "], " + str(w["other"]) + ")"
+        for w in wiring))
+    out.append("]\n")
     out.append("end Vata.Gen")
     return "\n".join(out) + "\n"
 
@@ -146,7 +218,12 @@ def regenerate(repo, dst):
         except Exception as e:  # noqa
             errors.append(rel + ": " + str(e))
             tables[tname] = ([], False)
-    txt = render(flags, words, tables, errors)
+    wiring = []
+    try:
+        wiring = parse_cache_wiring(repo)
+    except Exception as e:  # noqa
+        errors.append("cache wiring: " + str(e))
+    txt = render(flags, words, tables, errors, wiring)
     os.makedirs(os.path.dirname(dst), exist_ok=True)
     old = open(dst).read() if os.path.exists(dst) else None
     if old != txt:
